@@ -1073,6 +1073,20 @@ func ruleClosePathsReachCarrier(c *Ctx, rule string) {
 		if d, ok := in.(*ssa.Defer); ok && calleeName(d) == "(*sync.WaitGroup).Done" {
 			done = d
 		}
+		// `defer s.instanceDone()` with a method of the server that does nothing but call wg.Done(), once, on every path
+		if d, ok := in.(*ssa.Defer); ok {
+			if h := staticCallee(d); h != nil && w.inRoot(h) && h.Blocks != nil {
+				var dones []*ssa.Call
+				allInstrsLocal(h, func(x ssa.Instruction) {
+					if ci, isC := x.(*ssa.Call); isC && calleeName(ci) == "(*sync.WaitGroup).Done" {
+						dones = append(dones, ci)
+					}
+				})
+				if len(dones) == 1 && !inLoop(dones[0].Block()) && !pathAvoidingLocal(h, isExit, func(x ssa.Instruction) bool { return x == ssa.Instruction(dones[0]) }) {
+					done = d
+				}
+			}
+		}
 		// `done, err := s.addInstance(stream); …; defer done()` with done the WaitGroup's Done method value
 		if d, ok := in.(*ssa.Defer); ok && staticCallee(d) == nil && !d.Call.IsInvoke() && len(d.Call.Args) == 0 {
 			isDone := func(v ssa.Value) bool {
